@@ -75,6 +75,31 @@ class State:
             self.debug = []
 
 
+def drain_zarr_loop(timeout=10.0):
+    """Wait until zarr's IO loop has no unfinished task.  zarr writes the chunks of one selection with concurrent
+    coroutines; when one of them hits the crash the others are still queued (they have not reached the store yet) and
+    would otherwise run later — after the store has been brought up again.  A real crash kills them."""
+    import asyncio
+
+    try:
+        from zarr.core.sync import _get_loop
+        loop = _get_loop()
+    except Exception:  # noqa: BLE001
+        return False
+
+    async def drain():
+        me = asyncio.current_task()
+        while True:
+            if not [t for t in asyncio.all_tasks() if t is not me and not t.done()]:
+                return True
+            await asyncio.sleep(0.002)
+
+    try:
+        return asyncio.run_coroutine_threadsafe(drain(), loop).result(timeout=timeout)
+    except Exception:  # noqa: BLE001
+        return False
+
+
 class CrashStore(WrapperStore):
     def __init__(self, store, state=None):
         super().__init__(store)
@@ -104,6 +129,7 @@ class CrashStore(WrapperStore):
     def quiesce(self, timeout=10.0):
         """Wait until every write that passed the gate has reached the wrapped store (zarr issues the chunk writes
         of one selection concurrently; those already admitted when the crash hits still complete)."""
+        drain_zarr_loop(timeout)
         t0 = time.time()
         while self.state.inflight > 0 and time.time() - t0 < timeout:
             time.sleep(0.002)
